@@ -5,14 +5,16 @@
      wf_evs c Clean evs   histories from an empty stream directory in which a 376-byte PAT/PMT is fed before the first
                           frame of each publication, frames are whole 188-byte packets, and a re-publication happens
                           only after the deferred cleanup removed the directory (the other case: c10_republish_seq_refuted)
-     cfg_ok c             fragment_num >= 1, delete_threshold >= 0, 0 <= fragment_duration_ms <= 2^35 *)
+     cfg_ok c             fragment_num >= 1, delete_threshold >= 0, 0 <= fragment_duration_ms <= 2^35, and the stream name
+                          contains no LF and does not start with '#'
+     parse_live           a strict parser for media playlists (HlsParse.v); a result means "parses completely" *)
 From Coq Require Import ZArith Bool List Lia.
-From Lal Require Import Common.LBytes Hls.HlsFloat Hls.HlsFs Hls.HlsPlaylist Hls.HlsMuxer Hls.HlsConsistent
+From Lal Require Import Common.LBytes Hls.HlsFloat Hls.HlsFs Hls.HlsPlaylist Hls.HlsParse Hls.HlsMuxer Hls.HlsConsistent
   Hls.HlsInv Hls.HlsRunProofs Hls.HlsTraceProofs Hls.HlsFinalProofs Hls.HlsLossProofs Hls.HlsRecordProofs.
 Open Scope Z_scope.
 
-(* At EVERY prefix of the operation sequence: the live playlist, if present, is a complete playlist (the text
-   writePlaylist prints for some structured playlist); its target duration is at least every listed duration
+(* At EVERY prefix of the operation sequence: the live playlist, if present, is a complete playlist (it parses
+   completely, to the structured playlist it is the text of); its target duration is at least every listed duration
    (as listed, "%.3f") rounded to the nearest second; every listed segment exists, is closed, is a whole number of
    188-byte packets and begins with a PAT/PMT. *)
 Theorem c10_inv_every_prefix : forall c evs k,
@@ -21,13 +23,13 @@ Proof. exact every_prefix_live_ok. Qed.
 Print Assumptions c10_inv_every_prefix.
 
 (* The media sequence number never decreases from one instant to a later one (as long as the directory is not
-   removed in between). *)
-Theorem c10_media_sequence_monotone : forall c evs j k fj fk,
+   removed in between): whatever the two texts parse to. *)
+Theorem c10_media_sequence_monotone : forall c evs j k fj fk tj tk,
   cfg_ok c -> wf_evs c Clean evs -> (j <= k)%nat ->
   no_removeall (skipn j (firstn k (run c evs))) ->
   fs_lookup PLive (state_at c evs j) = Some fj -> fs_lookup PLive (state_at c evs k) = Some fk ->
-  exists pj pk, fdata fj = print_live (c_stream c) pj /\ fdata fk = print_live (c_stream c) pk /\ pl_seq pj <= pl_seq pk.
-Proof. exact media_sequence_monotone. Qed.
+  parse_live (fdata fj) = Some tj -> parse_live (fdata fk) = Some tk -> t_seq tj <= t_seq tk.
+Proof. exact media_sequence_parsed. Qed.
 Print Assumptions c10_media_sequence_monotone.
 
 (* Segments listed by the playlist at instant j are still present, closed and well-formed at every later instant k
@@ -37,7 +39,8 @@ Theorem c10_listed_segments_stay : forall c evs j k fj,
   no_removeall (skipn j (firstn k (run c evs))) ->
   ver_at c evs k - ver_at c evs j <= c_thr c ->
   fs_lookup PLive (state_at c evs j) = Some fj ->
-  exists pj, fdata fj = print_live (c_stream c) pj /\ Forall (seg_file_ok (state_at c evs k)) (pl_segs pj).
+  exists pj, fdata fj = print_live (c_stream c) pj /\ parse_live (fdata fj) = Some (abs_pl (c_stream c) pj) /\
+             Forall (seg_file_ok (state_at c evs k)) (pl_segs pj).
 Proof. exact listed_segments_stay. Qed.
 Print Assumptions c10_listed_segments_stay.
 
@@ -83,24 +86,23 @@ Print Assumptions c10_final_record.
 (* Re-publishing over the directory of the previous publication (no cleanup in between, e.g. cleanup mode 0):
    the media sequence goes from 2 back to 0.  Known finding C10-republish-media-sequence-restarts. *)
 Theorem c10_republish_seq_refuted :
-  exists c evs j k fj fk pj pk,
+  exists c evs j k fj fk tj tk,
     cfg_ok c /\ (j <= k)%nat /\ no_removeall (skipn j (firstn k (run c evs))) /\
     fs_lookup PLive (state_at c evs j) = Some fj /\ fs_lookup PLive (state_at c evs k) = Some fk /\
-    fdata fj = print_live (c_stream c) pj /\ fdata fk = print_live (c_stream c) pk /\ pl_seq pk < pl_seq pj.
+    parse_live (fdata fj) = Some tj /\ parse_live (fdata fk) = Some tk /\ t_seq tk < t_seq tj.
 Proof.
   exists (mkcfg [115%N] 1000 1 0 0),
     [EvNew; EvPatPmt []; EvFeed false 0 0 true 5 []; EvFeed false 0 90000 true 6 []; EvFeed false 0 180000 true 7 [];
      EvDispose; EvNew; EvPatPmt []; EvFeed false 0 0 true 9 []; EvFeed false 0 90000 true 10 []].
   exists 30%nat, 36%nat.
-  eexists. eexists.
-  exists (mkpl 1 2 [mkseg 7 2 fl0 false] true), (mkpl 1 0 [mkseg 9 0 (f_div (f_of_Z 90000) (f_of_Z 90000)) true] false).
-  split; [unfold cfg_ok; cbn; lia|].
+  do 4 eexists.
+  split; [unfold cfg_ok, stream_ok, no_nl; cbn; intuition (try lia; try discriminate)|].
   split; [lia|].
   split; [vm_compute; repeat constructor|].
   split; [vm_compute; reflexivity|].
   split; [vm_compute; reflexivity|].
   split; [vm_compute; reflexivity|].
-  split; [vm_compute; reflexivity|cbn; lia].
+  split; [vm_compute; reflexivity|vm_compute; reflexivity].
 Qed.
 Print Assumptions c10_republish_seq_refuted.
 
@@ -137,7 +139,7 @@ Example c10_hypotheses_satisfiable :
      fdata f = print_live [115%N] (mkpl 1 1 [mkseg 6 1 (f_div (f_of_Z 90000) (f_of_Z 90000)) false] false)) /\
   ver_at ex_cfg ex_evs 15 = 2.
 Proof.
-  split; [unfold cfg_ok; cbn; lia|].
+  split; [unfold cfg_ok, stream_ok, no_nl; cbn; intuition (try lia; try discriminate)|].
   split; [cbn; unfold good_pp, whole_pkts; repeat split; reflexivity|].
   split; [vm_compute; reflexivity|].
   split; [eexists; split; vm_compute; reflexivity|vm_compute; reflexivity].
